@@ -730,6 +730,19 @@ class Interp:
                                 "ill-formed text is accepted and the statements that were being parsed are dropped",
                                 node=h, origin=origin)
 
+                # T2S: running out of tokens while an aggregation block is open (StopIteration raised in the block
+                # productions) is the one way the parser learns that a block was never closed; parse() turns it into
+                # ParseError.  A handler on the way that takes it and carries on accepts a label cut short inside a block
+                # and drops the open block
+                BLOCK_FNS = ("parse_aggregation_block", "parse_end_aggregation", "parse_begin_aggregation_statement")
+                if e == "StopIteration" and self.cur[-1][0] == "parser" and any(f".{b} " in (origin + " ") or f".{b}`" in origin or origin.split(" ")[0].endswith("." + b) for b in BLOCK_FNS) \
+                        and not any(tfn.endswith("." + b) for b in BLOCK_FNS) and not tfn.endswith(".parse") \
+                        and (ho.normal or ho.returns or ho.continues or ho.breaks):
+                    self.report("T2S", tfn, f"except {hname}",
+                                f"`except {hname}` in {tfn} can catch the StopIteration raised at {origin} (the text ended inside an "
+                                "open block) and carries on: a label cut short inside a GROUP/OBJECT loads without the open block "
+                                "instead of being refused", node=h, origin=origin)
+
                 def clean(x, h=h):
                     flag = x.get("$t1")
                     if flag and not flag.startswith("S|"):
